@@ -450,3 +450,70 @@ CONCRETE["e2e:dirs"] = {
              "'.', '..'; every unsafe name also as the partition's ONLY volume), two uniquely filled samples per volume; image as written, followed by 3000 zero bytes, or followed by a cut-off second partition",
     "timeout_s": 60.0, "budget_quick": 150, "budget_thorough": 800,
 }
+
+
+# ================================================================================== Roland: names of performances - in volumes and orphaned
+def _build_roland_names(inputs):
+    L = _lib()
+    from contracts.e2e import expand_roland, _rsample
+
+    def run():
+        perfs = [{"name": n, "patches": [0]} for n in inputs["performances"]]
+        model = {"fat_version": 1, "disk_name": "D",
+                 "volumes": [{"name": "V1", "performances": list(inputs["in_volume"])}] if inputs["in_volume"] is not None else [],
+                 "performances": perfs, "patches": [{"name": "PA", "partials": [0]}], "partials": [{"name": "PT", "samples": [0]}],
+                 "samples": [_rsample("SWEEP", 64, 90)]}
+        raw = L.rw.build_roland_image(expand_roland(model))
+        with L.Workdir() as w:
+            img = w.file("img.s7xx", raw)
+            dest = w.sub(os.path.join("a", "b", "dest"))
+            before = set(L.read_tree(w.path))
+            stdout, err = L.do_export(img, dest)
+            after = L.read_tree(w.path)
+            pre = "a/b/dest/"
+            return {"files": sorted(k[len(pre):] for k in after if k.startswith(pre)),
+                    "outside": sorted(k for k in after if not k.startswith(pre) and k not in before),
+                    "lines": len(L.exported_lines(stdout)), "error": type(err).__name__ if err else None}
+    return {"call": run, "env": {}}
+
+
+def _oracle_roland_names(inputs, kind, val, env):
+    L = _lib()
+    if kind != "return":
+        return []
+    if val["error"]:
+        return [f"export-raised({val['error']})"]
+    bad = []
+    if val["outside"]:
+        bad.append(f"C06.inside-destination({val['outside']})")
+    if val["lines"] != len(val["files"]) + len(val["outside"]):
+        bad.append(f"C06.files-on-disk-equal-Exported-lines(lines={val['lines']},files={len(val['files'])})")
+    if len(val["files"]) != len(inputs["performances"]):
+        bad.append(f"C06.one-file-per-performance(files={len(val['files'])},performances={len(inputs['performances'])})")
+    for p in val["files"]:
+        cp = L.component_problems(p)
+        if cp:
+            bad.append(f"C06.component-safe({p!r}: {cp})")
+    return bad
+
+
+def _small_roland_names(tier, seed, shard=(0, 1)):
+    cases = [(["P1", "PAD", "PAD"], [0]), (["P1", "STR+BRASS."], [0]), (["P1", "../../ESC"], [0]), (["PAD", "PAD"], None), (["A.", "A.."], None),
+             (["KIT", "KIT", "KIT"], [0, 1]), (["X-", "X"], [1]), (["..", "."], [0])]
+    for k, (perfs, inv) in enumerate(cases):
+        if k % shard[1] == shard[0]:
+            yield {"performances": perfs, "in_volume": inv}
+
+
+@contract("e2e:roland_names", props=["C06"], abstract=True)
+def _rn(c):
+    pass
+
+
+CONCRETE["e2e:roland_names"] = {
+    "build": _build_roland_names, "small": _small_roland_names, "oracle": _oracle_roland_names,
+    "nontrivial": lambda i, s: s["kind"] == "return",
+    "bound": "8 Roland images whose performances - listed in a volume, orphaned (collected in the pseudo-volume) or on a disk without volumes - carry duplicate, "
+             "unsafe and path-like names ('../../ESC', 'STR+BRASS.', 'A.' / 'A..'); one uniquely named sample each; destination two levels below the work directory",
+    "timeout_s": 60.0, "budget_quick": 100, "budget_thorough": 200,
+}
